@@ -52,11 +52,25 @@ async fn run(cases: &str, out: &str, workdir: &str, backend: &str) {
             state: "created".to_string(),
             ..Default::default()
         });
+        // messages acknowledged from inside the handler, at their first delivery (leading `ack` operations marked `early`)
+        let early: Vec<usize> = v["ops"].as_array().unwrap().iter().filter(|o| o.get("early").is_some()).filter_map(|o| o["ack"].as_u64().map(|x| x as usize)).collect();
         {
             let log = log.clone();
             let store = engine.verif_store();
             let missing = Arc::new(Mutex::new(0usize));
+            let firsts = Arc::new(Mutex::new(0usize));
+            let exh = engine.executor();
             chan.on_message(move |e| {
+                if e.retry_times == 0 {
+                    let k = {
+                        let mut f = firsts.lock().unwrap();
+                        *f += 1;
+                        *f - 1
+                    };
+                    if early.contains(&k) {
+                        let _ = exh.msg().ack(&e.id);
+                    }
+                }
                 // the record must exist when the handler runs
                 if store.messages().find(&e.id).is_err() {
                     *missing.lock().unwrap() += 1;
@@ -66,6 +80,15 @@ async fn run(cases: &str, out: &str, workdir: &str, backend: &str) {
                 }
             });
         }
+        // another acknowledging channel with the same filter (it never acknowledges anything): both are handed every message
+        let chan3 = engine.channel_with_options(&ChannelOptions {
+            id: "chan3".to_string(),
+            ack: true,
+            r#type: "act".to_string(),
+            state: "created".to_string(),
+            ..Default::default()
+        });
+        chan3.on_message(move |_e| {});
         // a second acknowledging channel: the terminal message of the process (it outlives the process)
         let chan2 = engine.channel_with_options(&ChannelOptions {
             id: "chan2".to_string(),
@@ -125,6 +148,8 @@ async fn run(cases: &str, out: &str, workdir: &str, backend: &str) {
             let mut accepted = true;
             if op.get("tick").is_some() {
                 engine.verif_tick();
+            } else if op.get("early").is_some() {
+                // done already, inside the handler
             } else if let Some(i) = op.get("ack") {
                 if let Some((id, _)) = ids.get(i.as_u64().unwrap() as usize) {
                     let _ = ex.msg().ack(id);
